@@ -543,6 +543,32 @@ def job_stream(pid, ctx, n_random=None):
                     s.oracle_failures.append((i, c, ta, f"[C06] {ch} was force-killed at {t} ms, {t - max(m[ch] for m in mk)} ms after its grace period had elapsed (the kill is due at {max(m[ch] for m in mk)} ms)"))
         if "spawn:" in ta: s.nontrivial.add(hashlib.md5((c.split(" ", 1)[1] + ta).encode()).digest()[:8])
         if i % max(1, len(scripts) // 4) == 0 and len(s.samples) < 4: s.samples.append({"script": c, "impl": ta[:300], "model": tb[:300]})
+    # fault scripts (kill() or signal() of the child fails): no model comparison — the trace-level oracles only
+    r = random.Random(ctx["seed"] * 131 + 7)
+    fscripts = ["kf1 K0,I s:start;y;s:tryrestart;a:50", "kf2 K0,I s:start;y;s:restart;a:50;s:run:1;y", "kf3 K40,I s:start;y;s:stop;a:10;s:start;a:100",
+                "kf4 K0 s:start;y;s:gstop:15:20;a:100;s:towait;s:deletenow;a:50", "kf5 G,I s:start;y;s:gstop:15:30;a:100;s:start;y", "kf6 K0,I s:start;y;s:gtryrestart:15:20;a:100;s:run:2;y"]
+    for i in range(1500 if ctx["thorough"] else 300):
+        behs = ",".join(r.choice(["K0", "K0", "K30", "K100", "G", "I", "E30", "S20", "F"]) for _ in range(r.randint(1, 3)))
+        ops = []
+        for _ in range(r.randint(2, 8)):
+            a = r.choice(["start", "start", "stop", "gstop:15:20", "restart", "grestart:15:20", "tryrestart", "tryrestart", "gtryrestart:15:20", "signal:10", "towait", "run:%d" % r.randrange(50), "deletenow", "continue"])
+            ops.append(("s:" if r.random() < 0.8 else "n:") + a)
+            k = r.random()
+            if k < 0.4: ops.append("y")
+            elif k < 0.8: ops.append(f"a:{r.choice([0, 10, 20, 50, 100])}")
+        ops.append("a:200")
+        fscripts.append(f"kf{ctx['seed']}_{i} {behs} {';'.join(ops)}")
+    fimpl, fculprits, ffatal = core.run_chunks("wxjob", fscripts, 4, 600 if ctx["thorough"] else 150)
+    if ffatal: s.error = ffatal; return s
+    for c, why in fculprits: s.oracle_failures.append((0, c, "", f"[{pid}] the job task gave no answer on this fault script: {why}"))
+    (d / "faults.txt").write_text("\n".join(f"{c}\t{fimpl.get(c, '')}" for c in fscripts) + "\n")
+    for i, c in enumerate(fscripts):
+        if c not in fimpl: continue
+        ta = fimpl[c].split(" ", 1)[1] if " " in fimpl[c] else ""
+        s.evaluations += 1; s.bump("fault script (kill / signal failure injected; oracle only)")
+        for prop, what in job_oracles(c, ta):
+            if prop in ("C04", "C07") and ("spawn of" in what or "panicked" in what or "job ended but" in what):
+                s.oracle_failures.append((len(scripts) + i, c, ta, f"[{prop}] {what}"))
     s.note = ("scripts of API calls / virtual-time gaps / settles / handle drops against the real start_job (simulated child through the public spawn hook, paused clock, "
               "tickets polled by hand with recording wakers) vs the model's set of admissible traces: fixed scripts for every past finding, bounded-exhaustive sequences over the "
               "14-call public alphabet x {burst, settled} x 3 child behaviours, 60 park-then-mixed-priority-burst scripts, then seeded random scripts")
